@@ -1047,6 +1047,9 @@ fn spawn_async_ao_list_in_task'''),
         ('block-never-released', 'brush-core/src/completion.rs', "        shell.release_trap_delivery_block();\n\n        // Make a best-effort", "        // Make a best-effort"),
     ],
     'U42': [
+        ('null-scalar-has-no-key', 'brush-core/src/variables.rs', "            Self::String(_) => vec![\"0\".to_owned()],", "            Self::String(s) if s.is_empty() => vec![],\n            Self::String(_) => vec![\"0\".to_owned()],"),
+        ('scalar-key-is-one', 'brush-core/src/variables.rs', "            Self::String(_) => vec![\"0\".to_owned()],", "            Self::String(_) => vec![\"1\".to_owned()],"),
+        ('null-scalar-has-no-element', 'brush-core/src/variables.rs', "            Self::String(s) => vec![s.to_owned()],\n            Self::AssociativeArray(array) => array.values()", "            Self::String(s) if s.is_empty() => vec![],\n            Self::String(s) => vec![s.to_owned()],\n            Self::AssociativeArray(array) => array.values()"),
         ('unsubscripted-array-reads-as-first-element', 'brush-core/src/variables.rs', "Self::IndexedArray(values) => values.get(&0).map(|s| Cow::Borrowed(s.as_str())),\n            Self::Dynamic { .. } => None,", "Self::IndexedArray(values) => values.values().next().map(|s| Cow::Borrowed(s.as_str())),\n            Self::Dynamic { .. } => None,"),
         ('unsubscripted-array-reads-as-element-one', 'brush-core/src/variables.rs', "Self::IndexedArray(values) => values.get(&0).map(|s| Cow::Borrowed(s.as_str())),\n            Self::Dynamic { .. } => None,", "Self::IndexedArray(values) => values.get(&1).map(|s| Cow::Borrowed(s.as_str())),\n            Self::Dynamic { .. } => None,"),
         ('declared-unset-reads-as-empty', 'brush-core/src/variables.rs', "            Self::Unset(_) => None,\n            Self::String(s) => Some(Cow::Borrowed(s.as_str())),\n            Self::AssociativeArray(values) => values.get(\"0\")", "            Self::Unset(_) => Some(Cow::Borrowed(\"\")),\n            Self::String(s) => Some(Cow::Borrowed(s.as_str())),\n            Self::AssociativeArray(values) => values.get(\"0\")"),
